@@ -316,6 +316,7 @@ func (m *Mutex) TryLock() bool {
 	}
 	if m.holder != nil {
 		s.YieldHint()
+		s.Probes.Inc("lock_contended") // a failed TryLock is contention too (designs that never block)
 		return false
 	}
 	me := s.CurTask()
